@@ -1,6 +1,6 @@
 SPECIFICATION Spec
 CONSTANTS
-  ClassSet = {"a", "amp", "quot", "sp", "tab", "nl", "cr", "latin1", "cjk", "astral"}
+  ClassSet = {"a", "amp", "quot", "sp", "tab", "nl", "cr", "latin1", "cjk", "astral", "bom"}
   MaxChars = 4
 INVARIANT Dump
 CHECK_DEADLOCK FALSE
